@@ -5,10 +5,13 @@ format_date`, `DateUtils.generate_dates` (+ validity guard), `BaseDateParser.mat
 parser objects of every BaseDateParser culture on real regex matches of generated strings; the model is fed the same
 group values), `_date_time_resolution` on date slots; (2) pipeline: `DateTimeModel.parse` on every layout the committed
 contract /verif/contracts/C06.json demands of each culture, against the property's own oracle (one date entity covering
-the expression, timex = value = YYYY-MM-DD, for every reference)."""
+the expression, timex = value = YYYY-MM-DD, for every reference); (3) word contract: the month / day WORDS of every culture's
+`month_of_year` / `day_of_month` against the committed, hand-written /verif/contracts/C06words.json (`enero` = 1, `märz` = 3,
+`三月` = 3 …; also a Lean obligation: Props/C06 `month_words_*` / `day_words_*` over RTV/Gen/DateWords.lean)."""
 import datetime
 import json
 import os
+import re
 
 from lib import common, dtres, datefrontcorr
 from lib.common import cps
@@ -16,13 +19,18 @@ from lib.common import cps
 PROP = 'C06'
 LEVEL = 'proof'
 PROPS_MODULES = ['RTV.Props.C06', 'RTV.Props.C06Front']
-GEN = ['chartables', 'dtmaps', 'dateregex', 'regexes']
+GEN = ['chartables', 'dtmaps', 'datewords', 'dateregex', 'regexes']
 REQUIRED_THEOREMS = ['abs_date', 'abs_date_reference_independent', 'two_digit_year', 'two_digit_year_gap',
                      'two_digit_year_witness', 'invalid_date_not_resolved', 'pivots_sane', 'ymd_shape',
                      'month_map_en', 'day_map_en', 'english_month_names',
                      'month_map_es', 'month_map_esmx', 'month_map_fr', 'month_map_pt', 'month_map_it', 'month_map_de',
                      'month_map_nl', 'day_map_es', 'day_map_esmx', 'day_map_fr', 'day_map_pt', 'day_map_it',
                      'day_map_de', 'day_map_nl', 'numeric_keys_zh', 'abs_date_zh', 'zh_tables',
+                     'month_words_en', 'month_words_es', 'month_words_esmx', 'month_words_fr', 'month_words_pt',
+                     'month_words_it', 'month_words_de', 'month_words_nl', 'month_words_zh',
+                     'day_words_en', 'day_words_es', 'day_words_esmx', 'day_words_fr', 'day_words_pt', 'day_words_it',
+                     'day_words_de', 'day_words_nl', 'day_words_zh', 'month_words_cover', 'abs_date_month_word',
+                     'abs_date_zh_words',
                      'front_groups_en', 'front_decodes', 'front_abs_date', 'front_abs_date_engine', 'retables_ascii',
                      'token_tables', 'layouts_have_facts', 'front_day32_rejected']
 RULE = ('unit: format_date/luis_date on all 73,049 dates 1900..2099 + out-of-range years; generate_dates on a grid '
@@ -33,7 +41,10 @@ RULE = ('unit: format_date/luis_date on all 73,049 dates 1900..2099 + out-of-ran
         'each; other cultures: every layout on a smaller set); thorough: every one of the 73,049 dates in a rotating English '
         'layout, every English layout on every day of 2000 and 2019 and on every month end / leap day of every year, other '
         'cultures every layout on every day of 2000 and on month ends of every 7th year (the full product 73,049 x 15 layouts '
-        'does not fit 20 min at the measured 110-450 date queries/s); non-trivial = distinct query that produced the date')
+        'does not fit 20 min at the measured 110-450 date queries/s); non-trivial = distinct query that produced the date. '
+        'word contract: every word of contracts/C06words.json (all full month names, abbreviations, ordinal day spellings, '
+        '汉字 numerals; 9 cultures) against the tree\'s month_of_year / day_of_month; a violated word is put into the culture\'s '
+        'month-name layouts and asked of the pipeline')
 ASSUMPTIONS = ['English: text -> groups is modelled and proved (Props/C06Front: parse_basic_regex_match on the regenerated date regexes, '
                'every contract layout x every date 1900-2099; regex engine = backtracking matcher validated against `regex` by lib/datefrontcorr); '
                'other cultures: group values are inputs of the model; the date EXTRACTOR is not modelled (pipeline level only)',
@@ -45,6 +56,7 @@ ASSUMPTIONS = ['English: text -> groups is modelled and proved (Props/C06Front: 
                'datedelta is not involved in absolute dates']
 
 CONTRACT = os.path.join(common.VERIF, 'contracts', 'C06.json')
+WORDS = os.path.join(common.VERIF, 'contracts', 'C06words.json')
 REFS = [(1950, 1, 1, 0, 0, 0), (1987, 6, 15, 12, 0, 0), (2016, 11, 7, 10, 30, 0), (2020, 2, 29, 23, 59, 59),
         (2055, 7, 4, 6, 7, 8), (2090, 12, 31, 18, 0, 0)]
 CARRIERS = {
@@ -539,6 +551,120 @@ def replay_witnesses(ctx, T):
                                                                          for _, v in obs[q] if q.startswith(('feb', '2/29')))))
 
 
+# ---------------------------------------------------------------- word contract
+
+def word_queries(contract, culture, kind, word, n):
+    """Date expressions of the culture's own month-name layouts (contracts/C06.json) with the contract WORD standing for
+    month / day `n`, and the date they denote: what the property demands if the word means what the contract says."""
+    y = 2019
+    out = []
+    if culture == 'zh-cn':
+        if kind == 'month':
+            out.append(('%d年%s5日' % (y, word), (y, n, 5)))
+        else:
+            out.append(('%d年3月%s' % (y, word) + ('' if word[-1] in '日号' else '日'), (y, 3, n)))
+        return out
+    for row in contract['layouts'][culture]:
+        t = row['template']
+        if '{mon}' not in t and '{abbr}' not in t:
+            continue
+        if kind == 'month':
+            e = render(contract, culture, t.replace('{mon}', '@@').replace('{abbr}', '@@'), y, n, 5)
+            if e:
+                out.append((e.replace('@@', word), (y, n, 5)))
+        else:
+            for ph in ('{dord}', '{d1er}', '{d}.', '{d}e', '{d}'):
+                if ph in t:
+                    e = render(contract, culture, t.replace(ph, '@@', 1), y, 3, n)
+                    if e:
+                        out.append((e.replace('@@', word), (y, 3, n)))
+                    break
+    return out
+
+
+def word_contract(ctx, T, contract):
+    """Every word of the committed contract contracts/C06words.json against the tree's month_of_year / day_of_month
+    (Chinese: after the reduction of get_month_of_year / get_day_of_month, called on the real parser). Signature
+    `month-word-<culture>-<word>` / `day-word-<culture>-<word>`; for a violated word the culture's month-name layouts
+    with that word are asked of the pipeline, and the report is `property_fails` when one of them gives another date."""
+    with open(WORDS, encoding='utf-8') as f:
+        words = json.load(f)
+    bad = []          # (culture, kind, word, want, got)
+    unpinned = {}
+    n_checked = 0
+    for culture in dtres.TAGS:
+        dp = T.date_parser(culture)
+        zh = type(dp).__name__ != 'BaseDateParser'
+        for kind, table, getter in (('month', dp.config.month_of_year, getattr(dp, 'get_month_of_year', None)),
+                                    ('day', dp.config.day_of_month, getattr(dp, 'get_day_of_month', None))):
+            def meaning(w):
+                if w not in table:
+                    return None
+                return getter(w) if zh and getter is not None else table[w]
+            req = words[kind + '_required'].get(culture, {})
+            pin = words[kind + '_pinned'].get(culture, {})
+            for w, n in req.items():
+                n_checked += 1
+                if meaning(w) != n:
+                    bad.append((culture, kind, w, n, meaning(w)))
+                else:
+                    ctx.nontriv(('word', culture, kind, w))
+            for w, n in pin.items():
+                n_checked += 1
+                if w in req:
+                    continue
+                got = meaning(w)
+                if got is not None and got != n:
+                    bad.append((culture, kind, w, n, got))
+                elif got is not None:
+                    ctx.nontriv(('word', culture, kind, w))
+            rest = [k for k in table if k not in req and k not in pin and not k[:1].isdigit()]
+            if rest:
+                unpinned['%s:%s' % (culture, kind)] = rest
+    ctx.count('word-contract', n_checked)
+    ctx.extra['word_contract'] = {'words_checked': n_checked, 'violations': len(bad),
+                                  'tree_word_keys_not_in_contract': unpinned}
+    if not bad:
+        return
+    probes = []
+    for (culture, kind, w, n, got) in bad:
+        for q, (y, m, d) in word_queries(contract, culture, kind, w, n):
+            try:
+                datetime.date(y, m, d)
+            except ValueError:
+                continue
+            probes.append(((culture, kind, w, n, got), q, '%04d-%02d-%02d' % (y, m, d)))
+    res = dtres.run_queries([(b[0], q, REFS[2]) for b, q, _ in probes]) if probes else []
+    failing = {}
+    for (b, q, iso), rr in zip(probes, res):
+        verdict = judge((b[0], 'word', 'word', q, REFS[2], q, iso), rr)
+        if not verdict or b in failing:
+            continue
+        # "recognition gives the wrong date": a date entity with a full date other than the expected one. An expression that
+        # is merely not recognised counts only where the property demands it: a REQUIRED word in a layout of contracts/C06.json
+        wrong = [] if isinstance(rr, str) else [v.get('timex') for e in rr if e[5] for v in e[5]['values']
+                                                 if v.get('type') == 'date' and re.fullmatch(r'\d{4}-\d\d-\d\d', v.get('timex') or '')
+                                                 and v.get('timex') != iso]
+        demanded = b[0] != 'zh-cn' and b[2] in words[b[1] + '_required'].get(b[0], {})
+        if wrong or demanded:
+            failing[b] = (q, iso, verdict)
+    for b in bad:
+        culture, kind, w, n, got = b
+        sig = '%s-word-%s-%s' % (kind, culture, w)
+        state = 'is not a key' if got is None else 'means %d' % got
+        detail = 'contracts/C06words.json: %s word %r of %s means %d; in the tree\'s %s it %s' % (
+            kind, w, culture, n, 'month_of_year' if kind == 'month' else 'day_of_month', state)
+        if b in failing:
+            q, iso, verdict = failing[b]
+            dtres.report(ctx, 'property', sig, detail + '; parse[%s](%r): %s' % (culture, q, verdict),
+                         failing_input={'op': 'recognize_datetime', 'culture': culture, 'query': q, 'reference': list(REFS[2]),
+                                        'expected': iso, 'observed': verdict, 'word': w, 'contract': n, 'tree': got},
+                         property_fails=True)
+        else:
+            dtres.report(ctx, 'property', sig, detail + ' (no date expression with this word was found that is recognised as another date)',
+                         failing_input={'op': 'table', 'culture': culture, 'word': w, 'contract': n, 'tree': got})
+
+
 def correspond(ctx):
     contract = load_contract()
     T = dtres.Tree()
@@ -550,6 +676,7 @@ def correspond(ctx):
     unit_match_to_date_zh(ctx, T, contract)
     unit_resolution(ctx, T)
     replay_witnesses(ctx, T)
+    word_contract(ctx, T, contract)
     datefrontcorr.unit(ctx, T, contract, render); datefrontcorr.grid(ctx, T, contract, render, judge)
     pipeline(ctx, contract)
     shared_text_histories(ctx, contract)
